@@ -54,6 +54,13 @@ def run(ctx):
     if r.violated != "deadlock":
         raise vf.Infra("the model with a synchronous hot reload should deadlock (got %r)" % r.violated)
     ctx.set("design_deadlocks_with_synchronous_hot_reload", True)
+    # the two RW locks of stream.Stream (mutex, outDescMutex): one acquisition order everywhere = no deadlock;
+    # the reversed order in RTSPStream (named deviation) deadlocks in TLC
+    vf.mc(ctx, "LockOrder", "LockOrder.cfg", workers=2, timeout=600)
+    r = vf.tlc(ctx, "LockOrder", "LockOrder_dev.cfg", workers=2, timeout=600, allow_violation=True)
+    if r.violated != "deadlock":
+        raise vf.Infra("LockOrder.tla with RTSPTakesOutDescFirst should deadlock (got %r)" % r.violated)
+    ctx.set("design_deadlocks_with_reversed_lock_order", True)
 
     # directed replays of the orders the model flags as delicate (path parked before setPathReady
     # while the manager closes it / shuts down), then the free-running stress, both under -race
@@ -81,6 +88,13 @@ def run(ctx):
     if not os.path.exists(of):
         raise vf.Infra("stress harness produced no trace")
     obs = (vf.read_ndjson(od) if os.path.exists(od) else []) + vf.read_ndjson(of)
+    # the lock-order rounds of the stream stress (writers that change the parameter sets against RTSPStream /
+    # OutDescCopy / reader add-remove callers): same record shape, an unfinished operation is a hang
+    sp = ctx.path("stream_stress.ndjson")
+    if os.path.exists(sp):
+        lo = [r for r in vf.read_ndjson(sp) if r.get("lockorder")]
+        ctx.set("stream_lock_order_rounds", len(lo))
+        obs += lo
     slim = [{"run": o["run"], "ops": o["ops"], "shutdown": o["shutdown"]} for o in obs]
     vf.write_ndjson(os.path.join(d, "C40_trace.ndjson"), slim)
     with open(os.path.join(d, "Ch_tv.cfg"), "w") as fh:
@@ -90,7 +104,7 @@ def run(ctx):
     for bad in tv.tagged("BAD"):
         o = obs[bad["l"] - 1]
         ctx.violation({"monitor": bad["monitor"], "kinds": sorted(bad["kinds"])},
-                      "%s: operations %s did not finish within 30 s; goroutine dump:\n%s" % (bad["monitor"], sorted(bad["kinds"]), o.get("dump", "")[:6000]))
+                      "%s: operations %s did not finish within the watchdog (30 s core stress, 10 s stream lock-order round); goroutine dump:\n%s" % (bad["monitor"], sorted(bad["kinds"]), o.get("dump", "")[:6000]))
     nops = sum(len(o["ops"]) for o in obs)
     ctx.set("traces_validated_against_impl", len(obs))
     ctx.set("operations_recorded", nops)
